@@ -410,6 +410,23 @@ func (mo *monitor) observe(c *raftsim.Cluster, op string, res raftsim.Result) {
 		} else if !ok {
 			mo.leaderOfTerm[st.Term] = n.ID
 			mo.elections++
+			// a leader was elected by a quorum of its voting members (voters and witnesses):
+			// the grants sent to it in this term (a superset of those it received) plus its
+			// own vote must reach the quorum of its own membership
+			voting, grants := 0, 1
+			for _, rm := range st.Remotes {
+				if rm.Kind == 0 || rm.Kind == 2 {
+					voting++
+					if rm.ID != n.ID {
+						if to, ok := mo.voteOf[[2]uint64{rm.ID, st.Term}]; ok && to == n.ID {
+							grants++
+						}
+					}
+				}
+			}
+			if f[0] != "RESTART" && f[0] != "START" && grants < voting/2+1 {
+				mo.v("C03", "replica %d became leader of term %d with %d votes (its own included) out of %d voting members", n.ID, st.Term, grants, voting)
+			}
 			// leader completeness: the new leader holds every entry committed so far
 			for idx, rec := range mo.committed {
 				if idx < st.FirstIndex {
